@@ -98,6 +98,25 @@ def _full_rank_tt(A):
     return cores
 
 
+def scramble(cores, cond, g, wdt):
+    """Insert G_k, G_k^-1 with cond(G_k)=cond between neighbouring cores (value preserving up to roundoff)."""
+    cores = list(cores)
+    d = len(cores)
+    for k in range(d - 1):
+        r = cores[k].shape[-1]
+        U = torch.linalg.qr(core.payload([r, r], wdt, "gauss", g))[0]
+        V = torch.linalg.qr(core.payload([r, r], wdt, "gauss", g))[0]
+        sv = torch.logspace(0, math.log10(cond), r, dtype=torch.float64) if r > 1 else torch.ones(1, dtype=torch.float64)
+        sv = sv.to(DT[wdt])
+        Gm = U @ torch.diag(sv) @ V.conj().T
+        Gi = V @ torch.diag(1.0 / sv) @ U.conj().T
+        a = cores[k]
+        b = cores[k + 1]
+        cores[k] = (a.reshape(-1, r) @ Gm).reshape(a.shape)
+        cores[k + 1] = (Gi @ b.reshape(r, -1)).reshape(b.shape)
+    return cores
+
+
 def build(case):
     """returns (cores in dtype dt, ub = constructed unfolding-rank bound or None, eps)"""
     dt = case["dt"]
@@ -174,18 +193,7 @@ def build(case):
     # gauge scrambling (value preserving up to roundoff)
     cond = case["scramble"]
     if cond and d > 1:
-        for k in range(d - 1):
-            r = cores[k].shape[-1]
-            U = torch.linalg.qr(core.payload([r, r], wdt, "gauss", g))[0]
-            V = torch.linalg.qr(core.payload([r, r], wdt, "gauss", g))[0]
-            sv = torch.logspace(0, math.log10(cond), r, dtype=torch.float64) if r > 1 else torch.ones(1, dtype=torch.float64)
-            sv = sv.to(DT[wdt])
-            Gm = U @ torch.diag(sv) @ V.conj().T
-            Gi = V @ torch.diag(1.0 / sv) @ U.conj().T
-            a = cores[k]
-            b = cores[k + 1]
-            cores[k] = (a.reshape(-1, r) @ Gm).reshape(a.shape)
-            cores[k + 1] = (Gi @ b.reshape(r, -1)).reshape(b.shape)
+        cores = scramble(cores, cond, g, wdt)
     if case["rescale"] and d > 1:
         for k in range(0, d - 1, 2):
             cores[k] = cores[k] * 1e3
